@@ -27,6 +27,14 @@ PTS_G = [[0.0, 10.0], [1.0, 8.0], [2.0, 6.0], [3.0, 9.0], [5.0, 14.0], [8.0, 3.0
 PTS_L = [[0.0, 1.0], [4.0, 3.0], [7.0, 2.0], [12.0, 8.0], [20.0, -2.0]]
 
 
+def _big_table(n):
+    """n points over [0, 24] of a curve that is nowhere locally straight (size ladder for the lookups)"""
+    return [[24.0 * i / (n - 1), round(((i * 7) % 11) * 0.75 - (i % 3) * 1.25 + i * 0.05, 6)] for i in range(n)]
+
+
+PTS_33, PTS_41, PTS_130 = _big_table(33), _big_table(41), _big_table(130)
+
+
 def F(x):
     return float(x)
 
@@ -56,6 +64,9 @@ def constructs(base, start, dt):
         "lookup_list": ["lookup", b, PTS_L],
         "lookup_name": ["lookup", b, "lk"],
         "lookup_time": ["lookup", ["time"], PTS_L],
+        "lookup_list_33": ["lookup", b, PTS_33],
+        "lookup_list_41": ["lookup", b, PTS_41],
+        "lookup_name_130": ["lookup", b, "lk130"],
         "delay1": ["delay", base, ["num", F(d)], None],
         "delay2_init": ["delay", base, ["num", F(2 * d)], ["num", 5.0]],
         "delay_k_init": ["delay", base, ["num", F(2 * d)], ["ref", "k"]],
@@ -121,7 +132,7 @@ def make_spec(base, cname, ctx, start, dt, n):
         els["fin"] = {"kind": "flow", "eq": con}
         els["fout"] = {"kind": "flow", "eq": ["bin", "*", ["ref", "S"], ["num", 0.25]]}
         els["S"] = {"kind": "stock", "init": ["num", 2.0], "eq": ["bin", "-", ["ref", "fin"], ["ref", "fout"]]}
-    return {"name": "m", "start": start, "stop": stop, "dt": dt, "elements": els, "points": {"lk": PTS_L}}
+    return {"name": "m", "start": start, "stop": stop, "dt": dt, "elements": els, "points": {"lk": PTS_L, "lk130": PTS_130}}
 
 
 def pair_spec(base, c1, c2, op, ctx, start, dt, n):
@@ -290,7 +301,7 @@ def two_stock_spec(c_tr, c_out, flowkind, st, dt, n):
         "S1": {"kind": "stock", "init": ["num", 12.0], "eq": ["bin", "-", ["ref", "src"], ["ref", "tr"]]},
         "S2": {"kind": "stock", "init": ["num", 3.0], "eq": ["bin", "-", ["ref", "tr"], ["ref", "out"]]},
     }
-    return {"name": "m", "start": st, "stop": stop, "dt": dt, "elements": els, "points": {"lk": PTS_L}}
+    return {"name": "m", "start": st, "stop": stop, "dt": dt, "elements": els, "points": {"lk": PTS_L, "lk130": PTS_130}}
 
 
 def spec_of(case):
